@@ -145,7 +145,7 @@ func TestVerif_C01_pipeline(t *testing.T) {
 	s := c01New(t, "C01", "pipeline",
 		"API-level request specs: method; URL/base URL/scheme/path maps/query maps from the url lane's generators; client-level headers (nil, empty, 0..6 keys) and request-level headers with overlapping keys in the same and in another spelling, empty request values, Host / Cookie / Content-Type entries; 0..3 client and request cookies with names and values holding spaces, commas, semicolons, quotes, CR/LF, non-ASCII; body none / bytes / string / io.Reader / GetBody func / marshalled map, sizes 0..64 KiB; AllowGetMethodPayload on/off; captured: the *http.Request (method, URL, Host, header map, ContentLength, body bytes); non-trivial = request reached the transport")
 	r := s.Rand()
-	n := verifh.N(2500, 100000)
+	n := verifh.N(4000, 100000)
 	for i := 0; i < n; i++ {
 		tc := c01GenPipe(r)
 		c := C()
